@@ -96,6 +96,10 @@ func concretize(h *history, a *auA) concrete {
 			au = append(au, []byte{0x67, 0xff}) // profile_idc only: no parser accepts it
 		}
 		u := a.Units[0]
+		if (a.RA || a.NonIDR) && !h.H264Reorder && u.ID%3 == 1 {
+			// a second NAL unit of comparable size in front of the slice (SEI): the access unit's size is the sum
+			au = append(au, append([]byte{0x06}, fill(u.ID+7, 8+u.Len/2)...))
+		}
 		if a.RA {
 			au = append(au, h264SliceNALU(h, a, u, true))
 		}
